@@ -220,7 +220,7 @@ def Item.add (close : Rat → Rat → Bool) (it : Item) (v : Rat) : Option Item 
   if it.rep = 0 then
     some { it with stride := v - it.datum, rep := 1 }
   else
-    let expValue := it.datum + it.stride * (((it.rep + 1 : Nat) : Int) : Rat)
+    let expValue := it.datum + it.stride * ((it.rep + 1 : Nat) : Rat)
     if close v expValue then some { it with rep := it.rep + 1 } else none
 
 def valuesLoop (stride : Rat) : Nat → Rat → List Rat
